@@ -314,6 +314,50 @@ wg := WaitGroup()
 		b.WriteString("done.wait\nprintln \"end\"\n")
 		return b.String()
 	}},
+	{"dynamic_dispatch_first_calls", func(r *Rand) string {
+		// several threads execute the same dynamically dispatched call sites for the first
+		// time at the same moment, with receivers of different classes (inline method caches)
+		sites := r.Range(1, 4)
+		var b strings.Builder
+		b.WriteString(`using Std::Sync::WaitGroup
+class Animal
+  def speak: Int
+    1
+  end
+  def legs: Int
+    4
+  end
+end
+class Dog < Animal
+  def speak: Int
+    2
+  end
+end
+class Cat < Animal
+  def speak: Int
+    3
+  end
+end
+class Bird < Animal
+  def legs: Int
+    2
+  end
+end
+`)
+		for i := 0; i < sites; i++ {
+			fmt.Fprintf(&b, "def talk%d(a: Animal, wg: WaitGroup)\n  println \"t%d=${a.speak * 10 + a.legs}\"\n  wg.end\nend\n", i, i)
+		}
+		kinds := []string{"Dog()", "Cat()", "Bird()", "Animal()"}
+		nt := r.Range(2, 4)
+		fmt.Fprintf(&b, "wg := WaitGroup(%d)\n", nt*sites)
+		for i := 0; i < sites; i++ {
+			for t := 0; t < nt; t++ {
+				fmt.Fprintf(&b, "go talk%d(%s, wg)\n", i, kinds[(t+i)%len(kinds)])
+			}
+		}
+		b.WriteString("wg.wait\nprintln \"end\"\n")
+		return b.String()
+	}},
 	{"once_memo_concurrent", func(r *Rand) string {
 		var b strings.Builder
 		fmt.Fprintf(&b, "using Std::Sync::*\nom := Once.memo ->\n  k := 0\n  while k < %d\n    k = k + 1\n  end\n  40 + 2\nend\nwg := WaitGroup(%d)\n", Pick(r, []int{0, 5, 60}), 3)
